@@ -655,7 +655,8 @@ impl Model for NaiveDateTime {
 
 /// local wall clock = UTC + offset, computed without the chrono accessors that may panic near the range limits
 fn local_wall_clock(utc: NaiveDateTime, offset_secs: i32) -> NaiveDateTime {
-    utc.checked_add_signed(chrono::Duration::seconds(offset_secs as i64))
+    // checked_add_offset keeps a leap-second representation (nanosecond >= 10^9) intact, which is what the wire carries
+    utc.checked_add_offset(FixedOffset::east_opt(offset_secs).expect("harness: offset"))
         .expect("harness: local wall clock not representable")
 }
 
